@@ -220,7 +220,7 @@ def worker(args):
     return out
 
 
-def run(pid, tier, seed, res, drv, replay=None):
+def run(pid, tier, seed, res, drv, replay=None, replay_path=None):
     import dyn_replay
     t0 = time.time()
     if replay:
@@ -270,12 +270,14 @@ def run(pid, tier, seed, res, drv, replay=None):
         cl, _, _ = eval_one(pid, small)
         cc = next((x for x in cl if clause_key(x) == key), c)
         res.violations.append((cc, {"kind": "scenario", "scenario": small, "original": sc if small != sc else None}))
-    # the same corpus under python 3.11 when present (asyncio.gather yields there: defect D10 needs it)
-    if pid in ("C01", "C02", "C12") and not replay:
+    # the same corpus under python 3.11 when present (asyncio.gather yields there: defects D10, D13 need it)
+    alt_replay = replay and replay.get("case", {}).get("interpreter")
+    if pid != "C06" and (not replay or alt_replay):
         alt = "/root/.pyenv/versions/3.11.7/bin/python"
         if os.path.exists(alt):
             import subprocess
-            p = subprocess.run([alt, os.path.join(os.path.dirname(os.path.abspath(__file__)), "alt_corpus.py"), pid, str(seed), "150"],
+            extra = [replay_path] if alt_replay else []
+            p = subprocess.run([alt, os.path.join(os.path.dirname(os.path.abspath(__file__)), "alt_corpus.py"), pid, str(seed), "150"] + extra,
                                capture_output=True, text=True, timeout=600)
             try:
                 info = json.loads(p.stdout.strip().split("\n")[-1])
